@@ -749,12 +749,18 @@ fn evaluate_unary_op(op: UnaryOp, arr: &ArrayRef) -> Result<ArrayRef> {
 
 fn evaluate_case(
     batch: &RecordBatch,
-    _operand: Option<&Expr>,
+    operand: Option<&Expr>,
     when_then: &[(Expr, Expr)],
     else_expr: Option<&Expr>,
     subquery_executor: Option<&SubqueryExecutor>,
 ) -> Result<ArrayRef> {
     let num_rows = batch.num_rows();
+
+    // Simple form `CASE x WHEN v THEN ..`: each arm tests `x = v`
+    // (a NULL on either side is UNKNOWN, so the arm is not taken).
+    let operand_value: Option<ArrayRef> = operand
+        .map(|e| evaluate_expr_internal(batch, e, subquery_executor))
+        .transpose()?;
 
     // Start with else value or null
     let mut result: Option<ArrayRef> = else_expr
@@ -764,6 +770,10 @@ fn evaluate_case(
     // Process WHEN clauses in reverse order
     for (when, then) in when_then.iter().rev() {
         let condition = evaluate_expr_internal(batch, when, subquery_executor)?;
+        let condition = match &operand_value {
+            Some(op) => evaluate_binary_op(op, BinaryOp::Eq, &condition)?,
+            None => condition,
+        };
         let condition = condition
             .as_any()
             .downcast_ref::<BooleanArray>()
